@@ -107,4 +107,48 @@ Refusals == LET d == Dec(Kind, str) IN
             /\ (HasDup(str) => ~d.ok)
             /\ ((\E i \in DOMAIN str : str[i][3] = "badhash") => ~d.ok)
             /\ (~(Mandatory(Kind) \subseteq { str[i][1] : i \in DOMAIN str }) => ~d.ok)
+---------------------------------------------------------------------------
+(* Framing.  Every variable-length item, at every nesting level, is CompactSize(length) followed by the   *)
+(* bytes; a pair is  CS(1 + |keydata|) type keydata CS(|value|) value.  The table lists the variable-      *)
+(* length parts of the fields: <<kind, field, part, dim>> with dim = "len" (a byte length) or "count" (a   *)
+(* number of items), and VLen / KLen give the value / key-data length as a function of the size n.         *)
+CsLen(n) == IF n < 253 THEN 1 ELSE IF n < 65536 THEN 3 ELSE 5
+PairLen(kl, vl) == CsLen(1 + kl) + 1 + kl + CsLen(vl) + vl
+LenSizes   == {0, 1, 252, 253, 254, 65535, 65536}
+CountSizes == {0, 1, 2, 252, 253, 254}
+SizedParts == {
+  <<"input", "redeem_script", "value", "len">>, <<"input", "witness_script", "value", "len">>, <<"input", "final_script_sig", "value", "len">>,
+  <<"input", "final_script_witness", "item", "len">>, <<"input", "final_script_witness", "items", "count">>,
+  <<"input", "partial_sigs", "value", "len">>, <<"input", "bip32_derivation", "path", "count">>,
+  <<"input", "tap_key_origins", "leaves", "count">>, <<"input", "tap_key_origins", "path", "count">>, <<"input", "tap_scripts", "script", "len">>,
+  <<"input", "sha256_preimages", "value", "len">>, <<"input", "pegin_txout_proof", "value", "len">>, <<"input", "pegin_claim_script", "value", "len">>,
+  <<"input", "pegin_witness", "item", "len">>, <<"input", "pegin_witness", "items", "count">>, <<"input", "witness_utxo", "script", "len">>,
+  <<"input", "proprietary", "prefix", "len">>, <<"input", "proprietary", "key", "len">>, <<"input", "proprietary", "value", "len">>,
+  <<"input", "unknown", "key", "len">>, <<"input", "unknown", "value", "len">>,
+  <<"output", "redeem_script", "value", "len">>, <<"output", "witness_script", "value", "len">>, <<"output", "script", "value", "len">>,
+  <<"output", "tap_tree", "leaf", "len">>, <<"output", "tap_tree", "leaves", "count">>, <<"output", "bip32_derivation", "path", "count">>,
+  <<"output", "tap_key_origins", "leaves", "count">>, <<"output", "proprietary", "value", "len">>, <<"output", "unknown", "key", "len">>,
+  <<"global", "scalars", "instances", "count">>, <<"global", "xpub", "path", "count">>, <<"global", "proprietary", "prefix", "len">>,
+  <<"global", "proprietary", "value", "len">>, <<"global", "unknown", "key", "len">>, <<"global", "unknown", "value", "len">> }
+\* length of the value on the wire (NoExpect where a field-specific value codec decides)
+NoExpect == 1000000000
+VLen(part, n) ==
+  CASE part[3] = "value" -> n
+    [] part[3] = "item"   -> CsLen(1) + CsLen(n) + n                     \* a stack of one item
+    [] part[3] = "items"  -> CsLen(n) + 2 * n                            \* a stack of n one-byte items
+    [] part[2] = "bip32_derivation" -> 4 + 4 * n                          \* fingerprint + path
+    [] part[2] = "tap_key_origins" /\ part[3] = "leaves" -> CsLen(n) + 32 * n + 4 + 4
+    [] part[2] = "tap_key_origins" /\ part[3] = "path"   -> CsLen(1) + 32 + 4 + 4 * n
+    [] part[2] = "tap_scripts" -> n + 1                                  \* script, leaf version
+    [] part[2] = "witness_utxo" -> 33 + 9 + 1 + CsLen(n) + n              \* explicit asset, explicit value, null nonce, script
+    [] part[2] = "tap_tree" /\ part[3] = "leaf" -> 1 + 1 + CsLen(n) + n  \* depth, version, script
+    [] part[2] = "xpub" -> 4 + 4 * n
+    [] OTHER -> NoExpect
+SizesOf(part) == IF part[4] = "len" THEN (IF part[2] = "partial_sigs" THEN LenSizes \ {0} ELSE LenSizes)
+                 ELSE IF part[2] = "tap_tree" THEN {1, 2, 3, 128, 129}           \* leaves of a comb: depth grows with the count, 128 is the limit
+                 ELSE IF part[2] = "xpub" THEN {0, 1, 2, 254, 255}               \* an xpub's depth is one byte
+                 ELSE CountSizes
+SizedCases == UNION { { [kind |-> p[1], field |-> p[2], part |-> p[3], n |-> n, vlen |-> VLen(p, n)] : n \in SizesOf(p) } : p \in SizedParts }
+\* the framing is self-delimiting at every boundary: the length prefix determines the length
+FramingInjective == \A a, b \in LenSizes : a # b => PairLen(0, a) # PairLen(0, b) /\ PairLen(a, 0) # PairLen(b, 0)
 =============================================================================
